@@ -308,6 +308,7 @@ type LBlock struct {
 	Sec   *LSection
 	WFw   bool
 	WBgc  bool
+	WPad  int // cosmetic for the skeleton: 0 none, 1 ordinary padding, 2 / 3 paddings (and borders) that use up the whole width
 	WKids []LWChild
 	Hero  []LLeaf
 	Blank bool
@@ -425,6 +426,14 @@ func (bk LBlock) mjml(sent func() string) string {
 		}
 		if bk.WBgc {
 			a += ` background-color="#dddddd"`
+		}
+		switch bk.WPad {
+		case 1:
+			a += ` padding="10px 20px"`
+		case 2:
+			a += ` padding="0 300px"`
+		case 3:
+			a += ` padding="10px 280px" border="20px solid #000000"`
 		}
 		var b strings.Builder
 		for _, c := range bk.WKids {
@@ -600,7 +609,7 @@ func genLBlock(r *Rng) LBlock {
 	case "section":
 		return LBlock{K: "section", Sec: genLSection(r)}
 	case "wrapper":
-		b := LBlock{K: "wrapper", WFw: r.Bool(3, 10), WBgc: r.Bool(4, 10)}
+		b := LBlock{K: "wrapper", WFw: r.Bool(3, 10), WBgc: r.Bool(4, 10), WPad: []int{0, 0, 0, 0, 1, 1, 2, 3}[r.Intn(8)]}
 		for i, n := 0, []int{0, 1, 1, 2, 3}[r.Intn(5)]; i < n; i++ {
 			if r.Bool(8, 10) {
 				b.WKids = append(b.WKids, LWChild{Sec: genLSection(r)})
